@@ -315,7 +315,7 @@ func spellKey(r *core.Rand, k string, n *int) string {
 		k = strings.ToLower(k)
 	}
 	if r.Chance(1, 3) {
-		k = core.Pick(r, []string{" ", " ", "  "}) + k
+		k = core.Pick(r, []string{" ", " ", " ", "  ", "  ", "\t"}) + k
 	}
 	if r.Chance(1, 8) {
 		k += " "
